@@ -6,7 +6,8 @@ open SSV SSV.Cred SSV.Gen.C08
 Line protocol of the C08 driver (one answer line per input line):
   init <pskLen> <tcp 0|1> <udp 0|1> <doc> <k1,k2,…>   RegisterServer on a store file; the key list is the universe observed in dumps
   add <name> <key> | update <name> <key> | delete <name> | reload | edit <doc> | tick
-  race <op>;<op>[;<op>]     every outcome of every interleaving (then a tick), sorted, joined by '|'
+  race <op>;<op>[;<op>][;edit <doc>]   every outcome of every interleaving (then a tick), sorted, joined by '|';
+                                      results are listed for the API operations in their order, edits have none
 names: `-` is the empty username.  keys: <id>/<len>.  docs: E (zero bytes) | G (rejected by the decoder) | J:<name>=<key>,… (members in file order)
 answer: <result>;creds=…;tcp=…;htcp=…;udp=…;hudp=…;file=<doc>
 -/
@@ -78,26 +79,31 @@ def isLocal : Step → Bool
   | .guardName | .guardLen | .deferClose | .ret | .hashKey | .mkConfig | .guardConfigOk | .mkCred => true
   | _ => false
 
-/-- all terminal systems over every interleaving (local segments run eagerly: they commute) -/
-def explore : Nat → Sys → List Sys
-  | 0, s => [s]
-  | fuel + 1, s =>
+/-- all terminal systems over every interleaving of the threads' segments and the pending external edits
+(in their given order); local segments run eagerly: they commute with everything -/
+def explore : Nat → Sys → List Doc → List Sys
+  | 0, s, _ => [s]
+  | fuel + 1, s, edits =>
     let idx := List.range s.threads.length
     let live := idx.filter fun i => match s.threads[i]? with | some t => !t.prog.isEmpty | none => false
-    if live.isEmpty then [s]
+    if live.isEmpty && edits.isEmpty then [s]
     else
       match live.find? (fun i => match s.threads[i]? with | some t => (t.prog.head?.map isLocal).getD false | none => false) with
-      | some i => explore fuel (s.act hashOf (.thread i))
-      | none => live.flatMap fun i => explore fuel (s.act hashOf (.thread i))
+      | some i => explore fuel (s.act hashOf (.thread i)) edits
+      | none =>
+        (live.flatMap fun i => explore fuel (s.act hashOf (.thread i)) edits) ++
+        (match edits with
+         | [] => []
+         | d :: rest => explore fuel (s.act hashOf (.edit d)) rest)
 
 def dedupSorted (l : List String) : List String :=
   let s := l.mergeSort (fun a b => decide (a ≤ b))
   s.foldr (fun x acc => match acc with | y :: _ => if x == y then acc else x :: acc | [] => [x]) []
 
-def raceOutcomes (d : DSt) (ops : List Op) : String :=
+def raceOutcomes (d : DSt) (ops : List Op) (edits : List Doc) : String :=
   let s0 := Sys.start d.st ops
-  let fuel := (s0.threads.map (·.prog.length)).foldl (· + ·) 1
-  let finals := explore fuel s0
+  let fuel := (s0.threads.map (·.prog.length)).foldl (· + ·) (1 + edits.length)
+  let finals := explore fuel s0 edits
   let outs := finals.map fun s =>
     let rs := ",".intercalate (s.threads.map fun t => showRes (t.res.getD .ok))
     rs ++ ";" ++ dump { d with st := tick s.st }
@@ -119,10 +125,12 @@ def stepC08 (d : DSt) (line : String) : DSt × String :=
     | none => (d, "bad-op")
   | ["tick"] => let d' := { d with st := tick d.st }; (d', "ok;" ++ dump d')
   | "race" :: rest =>
-    let parts := (" ".intercalate rest).splitOn ";"
-    match parts.mapM (fun p => parseOp (fields p)) with
-    | some ops => (d, raceOutcomes d ops)
-    | none => (d, "bad-op")
+    let parts := ((" ".intercalate rest).splitOn ";").map fields
+    let editParts := parts.filter (fun ws => ws.head? == some "edit")
+    let opParts := parts.filter (fun ws => ws.head? != some "edit")
+    match opParts.mapM parseOp, editParts.mapM (fun ws => match ws with | [_, doc] => parseDoc doc | _ => none) with
+    | some ops, some edits => (d, raceOutcomes d ops edits)
+    | _, _ => (d, "bad-op")
   | _ =>
     match parseOp ws with
     | some op =>
